@@ -330,7 +330,14 @@ impl Response {
                     u32::from_le_bytes(payload[offset..offset + 4].try_into().unwrap()) as usize;
                 offset += 4;
 
+                // Every cell needs at least its 4-byte length prefix, so the rest of the payload
+                // cannot hold more rows than that (a frame with no columns holds none).
                 let max_cells = (payload.len() - offset) / 4;
+                if row_count > max_cells {
+                    return Err(TcpError::InvalidMessage(
+                        "Row count exceeds payload".into(),
+                    ));
+                }
                 let mut data = Vec::with_capacity(row_count.min(max_cells));
                 for _ in 0..row_count {
                     let mut row = Vec::with_capacity(col_count.min(max_cells));
